@@ -447,9 +447,24 @@ def check_file(inp):
     path = tmp_path()
     if os.path.exists(path):
         os.unlink(path)
+    # the same export through another public entry point / with the tempo given as another kind of number
+    # (seed C07-6: Chord.to_midi dropped tempo and time signature; C03-6: non-int tempi replaced by 120)
+    via = inp.get('via', 'score')
+    targ = tempo
+    if inp.get('tempo_kind') == 'float':
+        targ = float(tempo)
+    elif inp.get('tempo_kind') == 'npint':
+        import numpy as np
+        targ = np.int64(tempo)
     try:
         with contextlib.redirect_stdout(io.StringIO()):
-            s.to_midi(path, tempo=tempo, time_signature=ts)
+            if via == 'chord' and len(s.chords) == 1:
+                s.chords[0].to_midi(path, tempo=targ, time_signature=ts)
+            elif via == 'function':
+                from musiclang.write.out.to_midi import score_to_midi
+                score_to_midi(s, path, tempo=targ, time_signature=ts)
+            else:
+                s.to_midi(path, tempo=targ, time_signature=ts)
     except Exception as e:
         return {'observed': f'{type(e).__name__}: {e}', 'expected': 'export succeeds', 'class': 'export-raises'}
     try:
@@ -587,7 +602,15 @@ def oracle(ctx):
             todo.append({'score': i['score'], 'tempo': i.get('tempo', 120), 'ts': i.get('ts', [4, 4]), 'amps': i.get('amps')})
     for _ in range(ctx.n(450, 5000)):
         s = rand_score(ctx, referenced=True, in_range=True)
-        todo.append({'score': str(s), 'tempo': rng.choice(TEMPI), 'ts': list(rng.choice(SIGS)), 'amps': sound.amps_of(s)})
+        todo.append({'score': str(s), 'tempo': rng.choice(TEMPI), 'ts': list(rng.choice(SIGS)), 'amps': sound.amps_of(s),
+                     'via': ('chord' if len(s.chords) == 1 and rng.random() < 0.6 else rng.choice(['score', 'score', 'function'])),
+                     'tempo_kind': rng.choice(['int', 'int', 'float', 'npint'])})
+    for i in range(ctx.n(40, 400)):        # single-chord scores through Chord.to_midi
+        s = rand_score(ctx, referenced=True, in_range=True)
+        from musiclang import Score
+        s = Score([s.chords[0]])
+        todo.append({'score': str(s), 'tempo': rng.choice(TEMPI), 'ts': list(rng.choice(SIGS)), 'amps': sound.amps_of(s)[:sum(len(m.notes) for m in s.chords[0].score.values())],
+                     'via': 'chord', 'tempo_kind': rng.choice(['int', 'float'])})
     for inp in todo:
         try:
             s = sound.load_score(inp['score'], inp.get('amps'))
